@@ -8,10 +8,13 @@ HARNESSES = {
     "packages": {
         "proto": ("internal/proto", "proto"),
         "turn": (".", "turn"),
+        "server": ("internal/server", "server"),
     },
     "H2": {"pkg": ".", "run": "^TestVerifH2$", "streams": ["h2"], "toolchain": "go1.26.0", "timeout": (900, 3000)},
     "H9": {"pkg": ".", "run": "^TestVerifH9$", "streams": ["h9"], "toolchain": "go1.26.0", "timeout": (300, 600)},
     "H8": {"pkg": ".", "run": "^TestVerifH8$", "streams": ["h8"], "toolchain": "go1.26.0", "timeout": (300, 900)},
+    "H7": {"pkg": ".", "run": "^TestVerifH7$", "streams": ["h7"], "toolchain": "go1.26.0", "timeout": (300, 900)},
+    "H3": {"pkg": "./internal/server/", "run": "^TestVerifH3$", "streams": ["h3"], "toolchain": "go1.26.0", "timeout": (300, 900)},
     "H1": {"pkg": "./internal/proto/", "run": "^TestVerifH1$", "streams": ["h1"], "toolchain": None,
            "timeout": (600, 2400)},
 }
@@ -90,8 +93,12 @@ PROPS.update({
     "C01": h2prop(["TurnModel.Props.C01"], ["m:send", "m:cdata", "m:perm", "m:bind", "m:connect", "state"],
                   ["topeer", "dial"], []),
     "C02": h2prop(["TurnModel.Props.C02"], ["pdata", "pconn", "state"], ["dind", "cdat", "catt", "cclosed"], []),
-    "C03": h2prop(["TurnModel.Props.C03"], ["m:alloc", "m:refresh", "m:perm", "m:bind", "m:connect", "m:cbind", "state"],
-                  ["resp"], [], ["byte-level nonce / MESSAGE-INTEGRITY semantics are M3 (C03 nonce theorems, C17)"]),
+    "C03": dict(h2prop(["TurnModel.Props.C03", "TurnModel.Props.C03Nonce"],
+                       ["m:alloc", "m:refresh", "m:perm", "m:bind", "m:connect", "m:cbind", "state", "snv", "lnv"],
+                       ["resp"], ["nonce-window"],
+                       ["the MAC of the nonce managers is a parameter of the nonce theorems; harness H3 supplies the real HMAC of the decoded timestamp as an oracle entry per operation",
+                        "MESSAGE-INTEGRITY verification itself is pion/stun's (exercised for real, modelled as the fact macOK)"]),
+                harnesses=["H2", "H3"]),
     "C04": h2prop(["TurnModel.Props.C04"], ["m:*", "pdata", "pconn", "cclose", "state"], None, ["response-wrong-source"]),
     "C05": h2prop(["TurnModel.Props.C05"], ["m:send", "m:cdata", "pdata"], ["topeer", "dind", "cdat"], ["chandata-padding"]),
     "C06": h2prop(["TurnModel.Props.C06"], ["m:alloc", "m:refresh", "adv", "state", "m:send", "pdata"], ["resp", "topeer", "dind", "cdat"], []),
@@ -143,6 +150,19 @@ PROPS["C20"] = {
     "assumptions": ["no_shared_port assumes the network refuses to bind a port in use; the bundled generators open TCP listeners with SO_REUSEPORT, for which this is false (finding F18)"],
 }
 
+PROPS["C17"] = {
+    "modules": ["TurnModel.Props.C17"],
+    "harnesses": ["H7"], "view": ["lt"], "outs": None,
+    "alarms": ["ltcred-window", "ltcred-key", "ltcred-userid", "ltcred-other-secret", "ltcred-forgery", "ltcred-e2e"],
+    "rule": "H7 runs both generators and both handlers under virtual time: 3 secrets x 6 durations (incl. negative, zero, 1.5 s, 90 min) x validation at every second in "
+            "[expiry-3 s, expiry+3 s], every single-character insertion/substitution/deletion of the username from a 17-character alphabet (digits, ':', signs, space, '_', letters), every "
+            "single-bit mutation of the password checked with the real stun MESSAGE-INTEGRITY, another secret's handler, and an end-to-end Allocate through a real server; every handler "
+            "decision is replayed through the Lean model (strconv.Atoi / strings.Split glue included); distinct = (handler, outcome) pairs",
+    "trusted_base": LEAN_TB + ["hand-written model TurnModel/Model/LtCred.lean tied to lt_cred.go by correspondence harness H7 (real handlers under testing/synctest)",
+                               "HMAC-SHA1, base64 and MD5 are parameters of the theorems (forgery = collision), exercised for real by the harness"],
+    "assumptions": ["usernames in the mutation stream are ASCII"],
+}
+
 PROOF_NOTE = ("Trusted: Lean 4.33.0 kernel, axioms propext/Classical.choice/Quot.sound only (audited per theorem on every run), "
               "the hand-written model's tie to the code = correspondence harness + compiled driver (agreement observed on generated cases only). ")
 
@@ -181,7 +201,8 @@ MANIFEST_TEXT.update({
     "C02": _mt("udp_gated (forward iff live binding for the exact address, else live permission for the IP; state unchanged; owner only), tcp_gated, relay_owner_unique.",
                "DESIGN.md §6 C02", "Lean 4 decision-logic theorems over reachable states + differential correspondence"),
     "C03": _mt("auth_ok_iff and the 401/438/400 table, unauth_no_effect (state identical, no success) for all six methods, wrong_user_no_effect, connbind_owner_only; "
-               "credential defects generated with the real stun library and replayed through the model.",
+               "nonce_short_accept_iff for every truncation length and every MAC (accepted iff stamped 0..60 whole minutes ago), challenge_accepted, nonce_accept_only_minted, "
+               "nonce_long_accept_iff / nonce_long_only_minted; credential defects generated with the real stun library and both nonce managers driven under virtual time (H3) are replayed through the model.",
                "DESIGN.md §6 C03", "Lean 4 decision table + frame theorems + differential correspondence",
                "Cryptography is a parameter: the abstract credential facts are what authenticateRequest establishes."),
     "C04": _mt("unique_key / unique_relay (Nodup invariants over all reachable states), frame and others_cannot_touch (any history of other 5-tuples leaves an allocation identical), "
@@ -208,6 +229,9 @@ MANIFEST_TEXT.update({
                "PARTIAL: io.Copy and TCP are the runtime's.",
                "DESIGN.md §6 C16", "Lean 4 invariants + decision theorems + differential correspondence on TCP-relay histories",
                "Partial: byte piping by io.Copy is observed, not proved."),
+    "C17": _mt("atoi_fmt (the decimal text written by the generators is read back as the same number, all of int64), ltcred_window (accepted iff now <= expiry, any duration sign), "
+               "ltcred_key (returned key = long-term key of the generated password), ltcred_bad_timestamp, ltcred_expired, ltcred_forgery (honouring other credentials requires an MD5/HMAC collision), ltcred_rest.",
+               "DESIGN.md §6 C17", "Lean 4 theorems with the MAC as a parameter + differential correspondence under virtual time with exhaustive single-character mutations"),
     "C18": _mt("lock_checker_sound (for ALL programs: accepted skeleton => no lock held at any exit, no release of an unheld lock), all_functions_balanced over the skeletons regenerated "
                "from the current source, handlers_guarded (every state-changing call dominated by auth/owner/grant/family/valid guards), addperm_vs_close over all interleavings. "
                "PARTIAL: Go-memory-model data races and cross-function lock order are outside the model.",
